@@ -1571,31 +1571,49 @@ PARSE_CORPUS = [
 ]
 
 
-def run(ctx):
-    big = ctx.tier == "thorough"
-    # a broken obligation widens the search (fw: x10); x3 keeps a run on a changed tree within minutes (a case costs
-    # ~0.06 s here: two real runs, four snapshots, two models)
-    mult = min(ctx.search_mult, 3)
-    n = ctx.n(500, 2500) * mult
-    cases = [json.loads(json.dumps(c)) for c in CORPUS]
+def run_round(ctx, corpus, big):
+    """one round of all streams: (the corpora,) random cases, histories, parse()"""
+    n = ctx.n(500, 2500)
+    cases = [json.loads(json.dumps(c)) for c in CORPUS] if corpus else []
     for _ in range(n):
         cases.append(gen_case(ctx.rng, big=big))
     for i in range(0, len(cases), 60):
         run_cases(ctx, cases[i:i + 60])
     # histories: the same document again after the included files were rewritten in place (same hrefs, other contents)
-    hist = [json.loads(json.dumps(h)) for h in HISTORY_CORPUS]
-    for _ in range(ctx.n(40, 200) * mult):
+    hist = [json.loads(json.dumps(h)) for h in HISTORY_CORPUS] if corpus else []
+    for _ in range(ctx.n(40, 200)):
         c = gen_case(ctx.rng, big=False)
         if c["files"] and c.get("origin") != "graph":
             hist.append([c, rewrite_files(ctx.rng, c)])
     for h in hist:
         run_cases(ctx, h, shared_root=True)
-    pn = ctx.n(100, 400) * mult
-    pcases = [json.loads(json.dumps(c)) for c in PARSE_CORPUS]
+    pn = ctx.n(100, 400)
+    pcases = [json.loads(json.dumps(c)) for c in PARSE_CORPUS] if corpus else []
     for _ in range(pn):
         pcases.append(gen_case(ctx.rng, big=False, parse=True))
     for i in range(0, len(pcases), 60):
         run_parse_cases(ctx, pcases[i:i + 60])
+
+
+def run(ctx):
+    import time
+    big = ctx.tier == "thorough"
+    t0 = time.time()
+    run_round(ctx, True, big)
+    # a broken obligation widens the search (fw: x10).  Here the widening is bounded: further rounds only while no failing
+    # input has been found (once there is one the search has done its job), at most two, and only while the sweep has used
+    # less than WIDEN_BUDGET seconds - a round costs about a minute (a case = two real runs, four snapshots, two models)
+    budget = ctx.n(60, 240)
+    rounds = 0
+    while ctx.search_mult > 1 and rounds < 2 and not ctx.failures and (time.time() - t0) < budget:
+        rounds += 1
+        ctx.count("widened-search-round")
+        run_round(ctx, False, big)
+    tdir = os.path.join(fw.VERIF, "translators")
+    if tdir not in sys.path:
+        sys.path.insert(0, tdir)
+    import py2lean_fixexternal
+    ctx.extra["translator_normalised"] = list(py2lean_fixexternal.NOTES)
 
 
 def regenerate(ctx):
